@@ -90,6 +90,33 @@ type stationRT struct {
 	queued map[string][]byte // valid outbound messages: MID -> serialised
 	order  []string
 	status *StatusRec
+	dir    *dirBox // when set, the real DirHandler is the mailbox (h is unused)
+}
+
+// box is what the chain logic needs from either mailbox kind.
+func (st *stationRT) nextSession(failInbound int) {
+	if st.dir != nil {
+		st.dir.NextSession()
+		st.dir.failAt = failInbound
+		return
+	}
+	st.h.NextSession()
+	st.h.FailInboundAt = failInbound
+}
+
+func (st *stationRT) pending() []string {
+	if st.dir != nil {
+		return st.dir.Pending()
+	}
+	return st.h.Pending()
+}
+
+func (st *stationRT) seed(mid string, raw []byte) {
+	if st.dir != nil {
+		st.dir.Seed(mid, raw)
+		return
+	}
+	st.h.Seed(mid, raw)
 }
 
 func newStation(name string, p StationPlan, hist *mbox.History) *stationRT {
@@ -135,6 +162,9 @@ func (st *stationRT) session(peer *stationRT, master bool) *fbb.Session {
 	var h fbb.MBoxHandler = st.h
 	if st.plan.Batched {
 		h = mbox.Batched{Handler: st.h}
+	}
+	if st.dir != nil {
+		h = st.dir
 	}
 	s := fbb.NewSession(st.plan.Call, peer.plan.Call, st.plan.Locator, h)
 	s.SetLogger(discard)
